@@ -41,20 +41,20 @@ MOCK_MODEL_FILES = ["Strs.v", "MockSem.v", "MockSpec.v", "MockSeq_Proofs.v", "Mo
                     "gen/TemplateSrc.v", "TmplAst.v"]
 
 ALL_FAMILIES = ["names_distinct", "fields_distinct", "names_body_idents", "names_keywords", "names_shadow_types",
-                "names_qualifiers", "names_tparams", "tparam_exported", "method_name_clash", "tparams_clash",
+                "names_qualifiers", "names_tparams", "method_name_clash", "tparams_clash",
                 "alias_duplicate", "alias_not_identifier", "import_path_twice", "mock_name_twice",
                 "walk_incomplete", "self_check_not_instantiable", "constraint_unqualified_printer",
-                "not_a_method_set_interface", "lookup_accepts_values", "unexported_foreign", "explicit_same_pkg"]
+                "not_a_method_set_interface", "unexported_foreign", "explicit_same_pkg"]
 
 # families whose presence makes the emitted Go not parse/lift as a mock at all
 STRUCTURE_FAMILIES = ["method_name_clash", "names_body_idents", "mock_name_twice", "names_keywords",
                       "names_distinct", "fields_distinct", "names_tparams", "names_shadow_types", "names_qualifiers"]
 
 PROPS = {
-    "C01": dict(kind="gen", files=["P_C01.v", "GoTypes_Proofs.v", "Registry_Proofs.v", "P_C11.v"], theorems=[thm("C01_walk_visits_what_is_printed", "P_C01"), thm("populate_covers", "P_C01"), thm("C01_import_paths_sound", "P_C01"), thm("C01_refuted", "P_C01"), thm("refs_eq_mentions_refuted", "GoTypes_Proofs")], oracle=O.o_c01, known=ALL_FAMILIES),
+    "C01": dict(kind="gen", files=["P_C01.v", "GoTypes_Proofs.v", "Registry_Proofs.v", "P_C11.v"], theorems=[thm("C01_walk_visits_what_is_printed", "P_C01"), thm("populate_covers", "P_C01"), thm("C01_import_paths_sound", "P_C01"), thm("C01_refuted", "P_C01"), thm("C01_tparam_fixed", "P_C01"), thm("refs_eq_mentions_refuted", "GoTypes_Proofs")], oracle=O.o_c01, known=ALL_FAMILIES),
     "C02": dict(kind="gen", files=["P_C02.v", "P_C20.v"], theorems=[thm("C02_method_signature", "P_C02"), thm("C02_func_field_same_strings", "P_C02"), thm("C02_variadic_spelling", "P_C02"), thm("C02_method_arg", "P_C02")], oracle=O.o_c02,
                 known=["unexported_foreign", "not_a_method_set_interface", "method_name_clash", "mock_name_twice",
-                       "lookup_accepts_values"]),
+                       ]),
     "C03": dict(kind="mock", files=["P_C03.v", "TmplClosed.v"], need="B",
                 theorems=[thm("C03_call_core", "P_C03"), thm("C03_once_and_forward", "P_C03"),
                           thm("C03_plain_call", "P_C03"), thm("C03_histories", "P_C03"),
@@ -82,20 +82,20 @@ PROPS = {
                           thm("C08_reset_all", "P_C08"), thm("C08_restart", "P_C08"),
                           thm("canonical_components", "MockCheck"),
                           thm("moq_template_control_closed", "TmplClosed")]),
-    "C09": dict(kind="gen", files=["P_C09.v", "P_C02.v", "P_C20.v"], theorems=[thm("C09_tparams_shape", "P_C09"), thm("C09_tparams_count", "P_C09"), thm("C09_instances", "P_C09"), thm("C09_explicit_constraint", "P_C09"), thm("C09_tparam_names_refuted", "P_C09"), thm("C09_selfcheck_refuted", "P_C09")], oracle=O.o_c09,
-                known=["tparam_exported", "self_check_not_instantiable", "constraint_unqualified_printer",
+    "C09": dict(kind="gen", files=["P_C09.v", "P_C02.v", "P_C20.v"], theorems=[thm("C09_tparams_shape", "P_C09"), thm("C09_tparams_count", "P_C09"), thm("C09_instances", "P_C09"), thm("C09_explicit_constraint", "P_C09"), thm("C09_tparam_names_verbatim", "P_C09"), thm("C09_selfcheck_refuted", "P_C09")], oracle=O.o_c09,
+                known=["self_check_not_instantiable", "constraint_unqualified_printer",
                        "walk_incomplete", "tparams_clash", "names_tparams", "not_a_method_set_interface"]),
     "C10": dict(kind="gen", files=["P_C10.v", "P_C11.v", "Registry_Proofs.v"], theorems=[thm("C10_infer", "P_C10"), thm("C10_same_no_self_import", "P_C10"), thm("C10_same_bare", "P_C10"), thm("C10_other_imports_source", "P_C10"), thm("C10_skip_qualifier", "P_C10"), thm("C10_explicit_same_refuted", "P_C10")], oracle=O.o_c10,
                 known=["explicit_same_pkg", "unexported_foreign"]),
     "C11": dict(kind="gen", files=["P_C11.v", "Registry_Proofs.v"], theorems=[thm("C11_once", "P_C11"), thm("C11_sorted", "P_C11"), thm("C11_never_imports_destination", "P_C11"), thm("C11_keep_alias", "P_C11"), thm("C11_no_dot_blank", "P_C11"), thm("C11_vendor_example", "P_C11"), thm("C11_sync_when_methods", "P_C11"), thm("C11_distinct_refuted", "P_C11"), thm("C11_identifier_refuted", "P_C11")], oracle=O.o_c11,
                 known=["alias_duplicate", "alias_not_identifier", "walk_incomplete", "explicit_same_pkg"]),
-    "C12": dict(kind="gen", files=["P_C12.v", "P_C19.v"], theorems=[thm("C12_reserved_covers_keywords", "P_C12"), thm("C12_reserved_covers_basic_types", "P_C12"), thm("C12_suffix_escapes_table", "P_C12"), thm("C12_generated_not_reserved", "P_C12"), thm("C12_fresh_partial", "P_C12"), thm("C12_number_two_refuted", "P_C12"), thm("C12_user_reserved_refuted", "P_C12"), thm("C12_fields_refuted", "P_C12"), thm("C12_numbering_crash_refuted", "P_C12")], oracle=O.o_c12,
+    "C12": dict(kind="gen", files=["P_C12.v", "P_C19.v"], theorems=[thm("C12_reserved_covers_keywords", "P_C12"), thm("C12_reserved_covers_basic_types", "P_C12"), thm("C12_suffix_escapes_table", "P_C12"), thm("C12_generated_not_reserved", "P_C12"), thm("C12_fresh", "P_C12"), thm("C12_number_two_fixed", "P_C12"), thm("C12_user_reserved_fixed", "P_C12"), thm("C12_user_reserved_refuted", "P_C12"), thm("C12_fields_refuted", "P_C12"), thm("C12_numbering_crash_fixed", "P_C12")], oracle=O.o_c12,
                 known=["names_distinct", "fields_distinct", "names_body_idents", "names_keywords",
                        "names_shadow_types", "names_qualifiers", "names_tparams", "tparams_clash"]),
     "C13": dict(kind="gen", files=["P_C13.v"],
                 theorems=[thm("C13_exported_spec", "P_C13"), thm("C13_table", "P_C13"),
                           thm("C13_initialism_any_case", "P_C13"), thm("C13_unnamed_rule", "P_C13"),
-                          thm("C13_user_name_verbatim", "P_C13"), thm("C13_kept_partial", "P_C13")],
+                          thm("C13_user_name_verbatim", "P_C13"), thm("C13_user_name_body_idents", "P_C13"), thm("C13_kept_partial", "P_C13")],
                 oracle=O.o_c13, known=["transient_qualifier_rename"]),
     "C14": dict(kind="gen", files=["Sites_Proofs.v", "gen/Sites.v"],
                 theorems=[thm("C14_map_range_sites", "Sites_Proofs")], oracle=O.o_c14,
@@ -120,7 +120,7 @@ PROPS = {
                 theorems=[thm("C18_frame", "Cli_Proofs"), thm("C18_prefixes_only_created", "Cli_Proofs"),
                           thm("C18_no_out", "Cli_Proofs"), thm("C18_effect_alphabet", "Sites_Proofs"),
                           thm("pin_main_run", "Cli_Proofs"), thm("pin_moq_new", "Cli_Proofs")]),
-    "C19": dict(kind="gen", files=["P_C19.v"], theorems=[thm("C19_numbering_terminates", "P_C19"), thm("C19_numbering_never_out_of_fuel", "P_C19"), thm("C19_alias_diverges_refuted", "P_C19"), thm("C19_alias_diverges_at_add_import", "P_C19"), thm("C19_error_not_found", "P_C19"), thm("C19_error_not_interface", "P_C19"), thm("C19_error_no_arguments", "P_C19"), thm("C19_no_slice_panic", "P_C19"), thm("C19_variadic_slice_in_range", "P_C19")], oracle=O.o_c19, known=["alias_resolution_diverges"]),
+    "C19": dict(kind="gen", files=["P_C19.v"], theorems=[thm("C19_numbering_terminates", "P_C19"), thm("C19_numbering_total", "P_C19"), thm("C19_numbering_never_out_of_fuel", "P_C19"), thm("C19_alias_diverges_refuted", "P_C19"), thm("C19_alias_diverges_at_add_import", "P_C19"), thm("C19_error_not_found", "P_C19"), thm("C19_error_not_interface", "P_C19"), thm("C19_error_no_arguments", "P_C19"), thm("C19_no_slice_panic", "P_C19"), thm("C19_variadic_slice_in_range", "P_C19")], oracle=O.o_c19, known=["alias_resolution_diverges"]),
     "C20": dict(kind="gen", files=["P_C20.v"], theorems=[thm("C20_parse_plain", "P_C20"), thm("C20_parse_alias", "P_C20"), thm("C20_count_order_names", "P_C20"), thm("C20_count", "P_C20"), thm("C20_method_types_independent", "P_C20")], oracle=O.o_c20, known=[]),
 }
 
@@ -161,7 +161,8 @@ def proj_sections(text, sep):
 
 # which parts of the generated structure a property is about
 RELEVANT_DIFF = {
-    "C01": None, "C14": None, "C16": None, "C19": None,       # anything
+    "C01": None,                                              # anything
+    "C14": set(), "C16": set(), "C19": set(),                 # decided by their own oracles
     "C02": {"m", "ptype_unq", "r_unq", "mock"},
     "C09": {"tp", "ptype_unq", "r_unq"},
     "C10": {"pkg", "imp", "ptype", "r"},
